@@ -8,3 +8,4 @@ import BqlVerif.Properties.C07
 import BqlVerif.Properties.C08
 import BqlVerif.Properties.C09
 import BqlVerif.Properties.C04
+import BqlVerif.Properties.C05
